@@ -134,6 +134,9 @@ func (l *lock) Lock(ctx context.Context, key string, ttl time.Duration) (lockID 
 	}
 
 	q := l.getQueue(key)
+	if verifhook.Enabled {
+		verifhook.Point("lock.gotq", q, lockID)
+	}
 	q.enqueue(c)
 
 	if verifhook.Enabled {
